@@ -8,6 +8,7 @@ without clear_history.  Everything the callbacks expose afterwards is compared w
 import contextlib
 import csv
 import io
+import hashlib
 import math
 import os
 import shutil
@@ -163,6 +164,24 @@ def run_history(cfg, tape):
                     _ = (me.a, me["b"], list(me.epochs), me.last)  # a user inspecting the records between two runs
                 if len(oe):
                     _ = (oe.SigmaZ.mean, list(oe.epochs), oe.last)
+                if cfg["mode"] == "single" and state["injected"]:
+                    # the stop request persists: another fit() on the same objects must act at NO time - no record,
+                    # no message, no file written or rewritten (in particular not the saver's `initial` file)
+                    def files_now():
+                        out_ = {}
+                        for root_, _, fs_ in os.walk(d):
+                            for f_ in fs_:
+                                with open(os.path.join(root_, f_), "rb") as fh_:
+                                    out_[os.path.relpath(os.path.join(root_, f_), d)] = (hashlib.sha256(fh_.read()).hexdigest(), os.stat(os.path.join(root_, f_)).st_mtime_ns)
+                        return out_
+                    before_ = (files_now(), len(me), len(oe), len(msgs), len(rec))
+                    state["fit"] = 2
+                    call(st.fit, data, epochs=cfg["E"] + 2, starting_epoch=cfg["e0"], pos_batch_size=2, lr=0.1, callbacks=cbs, **kw)
+                    after_ = (files_now(), len(me), len(oe), len(msgs), len(rec))
+                    state["fit"] = 0
+                    if before_ != after_:
+                        changed_ = sorted(k for k in set(before_[0]) | set(after_[0]) if before_[0].get(k) != after_[0].get(k))
+                        out.append(("periodic:callbacks-acted-in-a-run-started-with-a-stop-pending", dict(files_changed=changed_, records=[list(before_[1:]), list(after_[1:])])))
                 if cfg["mode"] != "single":
                     st.stop_training = False
                     if cfg["mode"] == "two-clear":
